@@ -199,9 +199,9 @@ extern "C" ssize_t write(int fd, const void* buf, size_t n)
 // ---- virtual silence (see args_kernel.h) ----------------------------------------------------
 static volatile long pause_ms = 0;
 static pid_t pause_owner = 0;
-static long zero_calls = 0, timeouts_given = 0;
+static long zero_calls = 0, nonzero_calls = 0, timeouts_given = 0;
 static int spun = 0;
-extern "C" void vk_pause(long ms) { pause_ms = ms; pause_owner = getpid(); zero_calls = 0; timeouts_given = 0; spun = 0; }
+extern "C" void vk_pause(long ms) { pause_ms = ms; pause_owner = getpid(); zero_calls = 0; nonzero_calls = 0; timeouts_given = 0; spun = 0; }
 extern "C" int vk_spun(void) { return spun; }
 extern "C" long vk_timeouts(void) { return timeouts_given; }
 
@@ -213,7 +213,12 @@ static int silence(long asked)
   pause_ms -= asked;
   ++timeouts_given;
   if(asked == 0) { if(++zero_calls >= VK_SPIN_LIMIT) { spun = 1; pause_ms = 0; return -1; } }
-  else zero_calls = 0;
+  else {
+    zero_calls = 0;
+    // a caller that has come back VK_REARM_ENOUGH times with a real time-out has shown that its time-out path re-arms:
+    // the rest of the silence is skipped (keeps a long silence cheap for a reader that polls in short intervals)
+    if(++nonzero_calls >= VK_REARM_ENOUGH) pause_ms = 0;
+  }
   return 1;
 }
 
